@@ -10,7 +10,7 @@ ID = "C04"
 META = {
     "technique": "runtime monitoring: submitted schedules recorded at the scheduler boundary and replayed into an overlay reference model; recorded pilot matrix, every set_pilot call (class-level wrapper) and probe-EV rates compared with the model; rejection snapshots before/after",
     "design_ref": "DESIGN.md section 6 C04",
-    "level_text": "exploration: generated sequences of schedules (subsets of stations, lengths 1..45, empty, beyond the horizon incl. in the last period, int/float/numpy values, shuffled mapping order, infeasible) under all max_recompute settings; the pilot matrix and each applied pilot are compared with an overlay model, a twin run with a differently ordered/typed mapping must give identical outputs, malformed schedules must be refused with all observable state unchanged; bidirectional stations with pilots cancelling across stations; schedulers that probe Interface.is_feasible with richer candidates before submitting; schedule rows as pandas Series with unusual labels and as read-only strided views",
+    "level_text": "exploration: generated sequences of schedules (subsets of stations, lengths 1..45, empty, beyond the horizon incl. in the last period, int/float/numpy values, shuffled mapping order, infeasible) under all max_recompute settings; the pilot matrix and each applied pilot are compared with an overlay model, a twin run with a differently ordered/typed mapping must give identical outputs, malformed schedules must be refused with all observable state unchanged; bidirectional stations with pilots cancelling across stations; schedulers that probe Interface.is_feasible with richer candidates before submitting; schedule rows as pandas Series with unusual labels and as read-only strided views; finished simulations continued with a later event, every period simulated; schedules as defaultdict / proxy / ChainMap / UserDict",
     "level_note": "schedules are recorded as returned by the scheduler (client boundary), not inside the simulator; pilots are always EVSE-valid so that only the property's own rejections occur; EVSE objects are held by the harness to read current_pilot",
 }
 LEVEL = "exploration"
